@@ -48,8 +48,8 @@ CHECKS = {
             TRUST_CRDT + " Grid bounds as stated in the evidence rule; clock differences < 2^62.",
             "DESIGN.md §4 C15"),
     "C19": ("exploration", "runtime monitoring: target-equality oracle on patched replica and on receiving replica, unit check of emitted operations; REST half over the real service",
-            "Chains of seeded (current, target) pairs incl. keys needing JSON-pointer escaping, type changes and array growth/shrink/permutation; the patched document must equal the target, emit one unit, and bring a second replica to the target; invalid JSON must be refused without a trace. REST half: OrdaService.PatchDocument against the stored document (see level_note).",
-            TRUST_CRDT + " Targets contain no null. The REST half runs when the E-svc bed is linked in (cases with index%4==3).",
+            "Chains of seeded (current, target) pairs incl. keys needing JSON-pointer escaping, type changes and array growth/shrink/permutation; the patched document must equal the target, emit one unit, and bring a second replica to the target; invalid JSON must be refused without a trace. REST half: OrdaService.PatchDocument against the stored document: answer, replay of the stored log, server rebuild and every subscribed client must equal the target after each patch of a chain.",
+            TRUST_CRDT + " Targets contain no null. Every fourth case is a REST-half case over the E-svc bed (real service, in-memory MongoDB stand-in): document absent / created / subscribed, patches back to back and interleaved with pushes, with and without stored snapshots.",
             "DESIGN.md §4 C19"),
 }
 
@@ -72,13 +72,13 @@ CHECKS.update({
             "Every stored snapshot (duid, v) restored into a fresh datatype equals replay(1..v); every user-collection write carries _orda_ver_ = v and the JSON view of replay(1..v); written versions per key never decrease; GetLatestDatatype equals the full replay for every position of the latest snapshot; schedules hold a background update at each of its database commands while later pushes commit, run updates back to back, or start them out of order.",
             TRUST_SVC + " Keys avoid NUL, '$' and '.'.", "DESIGN.md §4 C11"),
     "C12": ("exploration", "Go race detector + runtime monitors on real parallel executions: critical-section overlap monitor on hook events, porcupine linearizability of the recorded push-pull history against a sequential specification, independence gate, watchdog",
-            "2-16 goroutines call the real service at the same instant on shared and distinct keys (own context each, cancelled on return) with injected yields at hook points and database commands; at most one handler per key inside the critical section; the call/return history of every key is linearizable against the push-pull specification (porcupine); requests on other keys return while one key's handler is held; every request returns; no race report attributed to orda code.",
+            "2-16 goroutines call the real service at the same instant on shared and distinct keys (own context each, cancelled on return) with injected yields at hook points and database commands; at most one handler per key inside the critical section; the call/return history of every key is linearizable against the push-pull specification (porcupine); requests on other keys return while one key's handler is held; every request returns, also ones abandoned by their client (context cancelled before / during / exactly at lock acquisition), and the key stays usable afterwards; no race report attributed to orda code.",
             TRUST_SVC + " Schedules are those the Go scheduler produced under the injected delays; the evidence counts the distinct critical-section entry orders seen. porcupine timeout = inconclusive.", "DESIGN.md §4 C12"),
     "C13": ("exploration", "runtime monitoring: complete entry-mode matrix with outcome oracle (error handler, state transitions, store diff, single datatype document under races, first state vs replay)",
             "The complete matrix entry mode x existing datatype x other client (absent / first / racing) x point of history x type (432 cells) is executed with seeded repetitions; illegal entries must reach the error handler with an empty store diff and no transition to SUBSCRIBED, legal ones report SUBSCRIBED exactly once with a first state equal to the replay up to the response checkpoint; racing subscribe-or-create leaves exactly one datatype document.",
             TRUST_SVC + " The matrix is complete; histories around the cells are seeded samples.", "DESIGN.md §4 C13"),
     "C16": ("exploration", "runtime monitoring: request mutation (hostile requests) with answered/hang/panic watchdog, refused => empty store diff oracle, canary client; client half for error packs",
-            "Valid requests captured from correct clients in every state are mutated in 1-3 fields (ids, keys, types, every option-bit combination, checkpoints, operation lists, client / collection fields) plus ClientMessage / PatchMessage / CollectionMessage variants; every call must be answered, never crash the server, and a refusal must leave the store unchanged; a canary client must still be served afterwards; clients must survive every error pack and push again after a refused push.",
+            "Valid requests captured from correct clients in every state are mutated in 1-3 fields (ids, keys, types, every option-bit combination, checkpoints, operation lists, client / collection fields) plus ClientMessage / PatchMessage / CollectionMessage variants; every call must be answered, never crash the server, and a refusal must leave the store unchanged; a canary client must still be served afterwards; a panic injected inside a handler goroutine must be answered, survived and must not leave the key locked; clients must survive every error pack and push again after a refused push.",
             TRUST_SVC, "DESIGN.md §4 C16"),
     "C17": ("exploration", "runtime monitoring: store diff partitioned by owner after every request over several collections in a fresh store; foreign-request and reset oracles",
             "Seeded histories over 2-3 collections with overlapping keys: every request may touch only documents owned by its own collection and datatype; foreign requests must change and read nothing of the other collection; ResetCollection removes exactly the owner's documents and leaves the rest byte-identical.",
